@@ -6,9 +6,6 @@ func builtinChecks(e *Engine, prop, tier string) []*groupResult {
 	return nil
 }
 
-func replayOnRealCode(e *Engine, o *Obligation) map[string]interface{} {
-	return map[string]interface{}{"reproduced": false, "reason": "replay generator not available for this obligation kind"}
-}
 
 func (x *Exec) appendSym(st *State, fr *Frame, s, m *SliceV) Value {
 	fail("append with symbolic lengths not modelled")
